@@ -86,6 +86,8 @@ func c15replay(c *Ctx, lines []string) {
 			c15hold(c, unhxl(f[1]), unhxl(f[2]))
 		case "rejoin":
 			c15rejoin(c, unhxl(f[1]))
+		case "encn":
+			c15encn(c, unhxl(f[1]))
 		case "enc", "rt", "trunc":
 			items := unhxl(f[1])
 			enc := portalwire.VerifEncodeContents(items)
@@ -152,6 +154,13 @@ func runC15(c *Ctx) {
 		}
 		c15dec1(c, b)
 	}
+	for _, sizes := range [][]int{{0}, {0, 0}, {3, 0, 2}, {0, 5}, {5, 0}, {0, 0, 0, 1}} {
+		items := make([][]byte, len(sizes))
+		for j, n := range sizes {
+			items[j] = r.Bytes(n)
+		}
+		c15encn(c, items)
+	}
 	for _, sizes := range [][]int{{130, 5}, {200, 0, 3}, {5, 130, 5}, {16384, 1}, {1}, {127, 128, 127}} {
 		items := make([][]byte, len(sizes))
 		for j, n := range sizes {
@@ -212,6 +221,16 @@ func runC15(c *Ctx) {
 				}
 				c.Count("hold")
 				c15hold(c, items, other)
+			}
+			hasEmpty := false
+			for _, it := range items {
+				if len(it) == 0 {
+					hasEmpty = true
+				}
+			}
+			if hasEmpty && len(enc) < 20000 {
+				c.Count("encn")
+				c15encn(c, items)
 			}
 			if len(enc) < 20000 && len(items) > 0 && r.Intn(3) == 0 {
 				c.Count("rejoin")
@@ -312,6 +331,20 @@ func c15rejoin(c *Ctx, items [][]byte) {
 	j1 := append([]byte{}, portalwire.VerifEncodeContents(got)...)
 	j2 := append([]byte{}, portalwire.VerifEncodeContents(got)...)
 	c.Emit("rejoin %s | %s %s %s", hxl(items), hx(j1), hx(j2), hxl(got))
+}
+
+// c15encn joins a list whose empty items are nil slices (what storage.Get hands back next to an error, what a zero
+// value is): an empty item is an item whatever its Go spelling.
+func c15encn(c *Ctx, items [][]byte) {
+	in := make([][]byte, len(items))
+	for i, it := range items {
+		if len(it) == 0 {
+			in[i] = nil
+		} else {
+			in[i] = it
+		}
+	}
+	c.Emit("encn %s | %s", hxl(items), hx(portalwire.VerifEncodeContents(in)))
 }
 
 func c15dec1(c *Ctx, b []byte) {
